@@ -323,6 +323,26 @@ def _cls_mismatch(m):
     return [m["how"]] if applicable else ["not applicable"]
 
 
+def enum_frame_limits(tier, shard, nshards, rng):
+    """Frames whose total size is 65535 / 65536 octets (frame-length field 0xFFFE / 0xFFFF), reached through the sum of header,
+    insert zone, data-field header, data zone, OCF and FECF."""
+    cases = []
+    for kind, rule, pointer in (("variable", 7, None), ("fixed", 0, 0x0102)):
+        for vcf_len, iz, ocf, fecf in ((0, None, None, None), (3, "0102030405060708", "0a0b0c0d", "e1e2e3e4"), (7, "ff", None, "beef"), (0, None, "01020304", None)):
+            for total in (65535, 65536):
+                rest = 7 + vcf_len + (len(iz) // 2 if iz else 0) + 1 + (2 if pointer is not None else 0) + (4 if ocf else 0) + (len(fecf) // 2 if fecf else 0)
+                n = total - rest
+                h = 1 + (2 if pointer is not None else 0)
+                if n + h > 65529 - h:  # the data field itself is capped by the library; such totals need more of the optional parts
+                    continue
+                hdr = {"scid": 0xA55A, "src_dest": 1, "vcid": 0x2A, "map_id": 9, "frame_len": 0, "bypass": 1, "prot_cmd": 0, "ocf_flag": int(ocf is not None), "vcf_len": vcf_len,
+                       "vcf_count": (1 << (8 * vcf_len)) - 2 if vcf_len else 0, "tail": ""}
+                cases.append({"kind": kind, "rule": rule, "upid": 5, "tfdz": (bytes([n & 0xFF, 0x5A]) * (n // 2 + 1))[:n].hex(), "pointer": pointer, "hdr": hdr, "insert_zone": iz, "ocf": ocf, "fecf": fecf})
+    for i, c in enumerate(cases):
+        if i % nshards == shard:
+            yield c
+
+
 CLAUSES = [
     Clause(
         id="C17.header",
@@ -352,6 +372,17 @@ CLAUSES = [
         classify=_cls_frame,
         required=["fixed", "variable", "truncated", "insert zone + OCF + FECF", "empty data zone", "fecf 4"] + [f"rule {r}" for r in range(8)],
         n={"quick": 1500, "thorough": 12000},
+    ),
+    Clause(
+        id="C17.frame_limits",
+        doc="frames of 65535 and 65536 octets in total (frame-length field 0xFFFE / 0xFFFF), the total reached through header + VCF count + insert zone + data field + OCF + FECF; same oracle as C17.frame",
+        kind="enum",
+        enum=enum_frame_limits,
+        check=check_frame,
+        classify=lambda c: [c["kind"], "total 65536" if 7 + c["hdr"]["vcf_len"] + (len(c["insert_zone"]) // 2 if c["insert_zone"] else 0) + 1 + (2 if c["pointer"] is not None else 0) + len(c["tfdz"]) // 2
+                            + (4 if c["ocf"] else 0) + (len(c["fecf"]) // 2 if c["fecf"] else 0) == 65536 else "total 65535"],
+        required=["fixed", "variable", "total 65536", "total 65535"],
+        shards={"quick": 8, "thorough": 8},
     ),
     Clause(
         id="C17.mismatch",
